@@ -260,6 +260,16 @@ func (l *Lexer) readOctalNumber() (string, token.Type) {
 	return l.input[position:l.position], token.INT
 }
 
+// mustStayEscaped reports whether the character denoted by an escape sequence
+// cannot be written literally between double quotes: the quote itself, the
+// backslash, a line terminator, or a surrogate half (not encodable as UTF-8).
+// Such escapes are kept verbatim so that the printed literal denotes the same
+// string as the source literal.
+func mustStayEscaped(value int) bool {
+	return value == '"' || value == '\\' || value == '\n' || value == '\r' ||
+		(value >= 0xD800 && value <= 0xDFFF)
+}
+
 // readString reads a string literal. The second result is false when the
 // input ends before the closing delimiter.
 func (l *Lexer) readString(delimiter byte) (string, bool) {
@@ -275,6 +285,11 @@ func (l *Lexer) readString(delimiter byte) (string, bool) {
 		// Handle escape sequences
 		if l.CurrentChar == '\\' {
 			l.ReadChar() // Move to the character after backslash
+			if l.atEOF() {
+				result.WriteByte('\\')
+				terminated = false
+				break
+			}
 			if l.CurrentChar == 'x' {
 				// Handle hexadecimal escape sequence \xHH
 				hex1 := l.PeekChar()
@@ -283,9 +298,16 @@ func (l *Lexer) readString(delimiter byte) (string, bool) {
 					hex2 := l.PeekChar()
 					if isHexDigit(hex2) {
 						l.ReadChar() // consume second hex digit
-						// Convert hex digits to byte value
+						// Convert hex digits to the code point U+00HH
 						value := hexDigitValue(hex1)*16 + hexDigitValue(hex2)
-						result.WriteByte(byte(value))
+						if mustStayEscaped(value) {
+							result.WriteByte('\\')
+							result.WriteByte('x')
+							result.WriteByte(hex1)
+							result.WriteByte(hex2)
+							continue
+						}
+						result.Write(encodeUTF8(value))
 						continue
 					}
 				}
@@ -351,6 +373,15 @@ func (l *Lexer) readString(delimiter byte) (string, bool) {
 						continue
 					}
 
+					if mustStayEscaped(value) {
+						result.WriteByte('\\')
+						result.WriteByte('u')
+						result.WriteByte('{')
+						result.Write(hexDigits)
+						result.WriteByte('}')
+						continue
+					}
+
 					// Convert to UTF-8 and add to result
 					utf8Bytes := encodeUTF8(value)
 					for _, b := range utf8Bytes {
@@ -373,6 +404,15 @@ func (l *Lexer) readString(delimiter byte) (string, bool) {
 									l.ReadChar() // consume fourth hex digit
 									// Convert 4 hex digits to Unicode value
 									value := hexDigitValue(hex1)*4096 + hexDigitValue(hex2)*256 + hexDigitValue(hex3)*16 + hexDigitValue(hex4)
+									if mustStayEscaped(value) {
+										result.WriteByte('\\')
+										result.WriteByte('u')
+										result.WriteByte(hex1)
+										result.WriteByte(hex2)
+										result.WriteByte(hex3)
+										result.WriteByte(hex4)
+										continue
+									}
 									// Convert to UTF-8 and write the bytes
 									utf8Bytes := encodeUTF8(value)
 									for _, b := range utf8Bytes {
@@ -404,6 +444,11 @@ func (l *Lexer) readString(delimiter byte) (string, bool) {
 		}
 		if l.CurrentChar == delimiter {
 			break
+		}
+		if l.CurrentChar == '"' {
+			// a bare double quote inside '...': string literals are printed
+			// between double quotes, where it has to be escaped
+			result.WriteByte('\\')
 		}
 		result.WriteByte(l.CurrentChar)
 	}
